@@ -4,6 +4,7 @@ import (
 	"go/ast"
 	"go/token"
 	"go/types"
+	"strings"
 )
 
 func init() { register("C02", rulesC02, deepC02) }
@@ -621,6 +622,12 @@ func rulesC02(c *Ctx) {
 		}
 		c.Pin("updateBatch flush return", flush, 1)
 	})
+
+	c.Import("R-C02-9", "a streamable session is not closed by its idle timer while a POST is being served: the response of a slow call still has a connection to be written to", "C11", "R-C11-4", func(k string) bool {
+		return strings.HasPrefix(k, "startPOST") || strings.HasPrefix(k, "endPOST") || strings.HasPrefix(k, "idle-timer")
+	})
+
+	c.Import("R-C02-10", "malformed per-request metadata is answered with an error, not with a crash of the handler goroutine: a null _meta entry does not count as present", "C06", "R-C06-2", func(k string) bool { return strings.HasPrefix(k, "decodeMetaValue") })
 
 	c.Rule("R-C02-8", "on the streamable server a logical stream outlives every call of its POST: each response of a batch still finds its stream (shared with R-C08-6)", func() { streamBookkeepingRule(c) })
 
